@@ -201,6 +201,8 @@ def compare(impl_payload, model_payload, line=""):
         b.append(("panic", "the parser panicked"))
     if "s.w" in M and "s.ess" not in M and I.get("w") != M["s.w"]:
         b.append(("w", "weight %s, the function has %s satisfying points" % (I.get("w"), M["s.w"])))
+    if "s.shape" in M and I.get("shape") != M["s.shape"]:
+        b.append(("shape", "normal forms of a constant-free expression do not satisfy is_nnf / is_cnf / is_dnf: %s" % I.get("shape")))
     if "s.fresh" in M and I.get("fresh") != M["s.fresh"]:
         b.append(("fresh", "a freshly built object of the same function over the same inputs is told apart: flags %s (structure/node count, equivalent x2, implied x2)" % I.get("fresh")))
     if I.get("det") == "0":
